@@ -318,6 +318,12 @@ def g_powers(ctx, rng, i):
         except Exception as e:
             ctx.judge("pow", False, [m, k], what=f"t**{k} raised {type(e).__name__}: {e}", op="__pow__")
     t.inverse()
+    # exponents of numpy integer types (what iterating over np.arange yields)
+    for k in (np.int64(2), np.int32(-1), np.int64(0), np.uint8(3)):
+        try:
+            t ** k
+        except Exception as e:
+            ctx.judge("pow", False, [m, int(k)], what=f"t**{type(k).__name__}({int(k)}) raised {type(e).__name__}: {str(e)[:100]}", op="__pow__", feat={"power_type": type(k).__name__})
     # larger exponents on maps whose powers stay moderate: rotations, translations, unimodular shears
     big = [g.rotation(float(rng.uniform(-1, 1))) if dim == 2 else g.rotation(float(rng.uniform(-1, 1)), axis=g.Point(*gen.nonzero_vec(rng, 3, 2).tolist())),
            g.translation(*gen.coords(rng, (dim,), 3, "int").tolist())]
